@@ -28,10 +28,7 @@ class RawConsts(dict):
 def replay_stream(binary, paths, args):
     bindir = C.build_harness()
     report = os.path.join(C.WORK, "replay-%s-%d.json" % (binary, os.getpid()))
-    cat = subprocess.Popen(["zcat"] + paths, stdout=subprocess.PIPE)
-    p = subprocess.run([os.path.join(bindir, binary)] + args + ["--out", report], stdin=cat.stdout, stdout=subprocess.PIPE,
-                       stderr=subprocess.PIPE, text=True)
-    cat.wait()
+    p = C.run_on_records(paths, [os.path.join(bindir, binary)] + args + ["--out", report])
     if p.returncode == 2:
         raise C.ToolError("%s failed: %s" % (binary, p.stderr[-2000:]))
     if p.returncode != 0:
@@ -253,10 +250,7 @@ def check_c07(tier):
 def replay_geom(paths, bmi2, seed):
     bindir = C.build_harness(bmi2=bmi2)
     report = os.path.join(C.WORK, "replay-geom-%d-%s.json" % (os.getpid(), "bmi2" if bmi2 else "def"))
-    cat = subprocess.Popen(["zcat"] + paths, stdout=subprocess.PIPE)
-    p = subprocess.run([os.path.join(bindir, "replay_geom"), "--seed", str(seed), "--out", report], stdin=cat.stdout,
-                       stdout=subprocess.PIPE, stderr=subprocess.PIPE, text=True)
-    cat.wait()
+    p = C.run_on_records(paths, [os.path.join(bindir, "replay_geom"), "--seed", str(seed), "--out", report])
     if p.returncode != 0:
         return None, {"exit": p.returncode, "stderr": p.stderr[-2000:], "build": "bmi2" if bmi2 else "default"}
     rep = json.load(open(report))
